@@ -17,6 +17,7 @@ import (
 	"hash/fnv"
 	"io"
 	"runtime"
+	"sort"
 	"strings"
 	"sync"
 	"testing"
@@ -88,6 +89,52 @@ type Art struct {
 	Chain      []ChainItem     `json:"chain,omitempty"`
 	MI         *MISpec         `json:"mi,omitempty"`
 	CBOR       []Call          `json:"cbor,omitempty"`
+	// Sampled: the output is too large to try every position (cost is quadratic); positions are
+	// the deterministic sample of faultPositions().
+	Sampled bool `json:"sampled,omitempty"`
+}
+
+// faultPositions: every k for ordinary artifacts; for Sampled ones the first and last 300
+// positions, +-2 around every multiple of 4 KiB and around every power of two, and a stride of 997
+// in between (so every chunk of >= 1 KiB of the output, in particular the last one, is hit).
+func faultPositions(n int, sampled bool) []int {
+	if !sampled {
+		ks := make([]int, n+1)
+		for i := range ks {
+			ks[i] = i
+		}
+		return ks
+	}
+	set := map[int]bool{n: true}
+	add := func(k int) {
+		if k >= 0 && k <= n {
+			set[k] = true
+		}
+	}
+	for k := 0; k < 300; k++ {
+		add(k)
+		add(n - k)
+	}
+	for k := 0; k <= n; k += 997 {
+		add(k)
+	}
+	for k := 4096; k <= n+2; k += 4096 {
+		for d := -2; d <= 2; d++ {
+			add(k + d)
+		}
+	}
+	for k := 1; k <= n+2; k *= 2 {
+		for d := -2; d <= 2; d++ {
+			add(k + d)
+			add(n - k + d)
+		}
+	}
+	ks := make([]int, 0, len(set))
+	for k := range set {
+		ks = append(ks, k)
+	}
+	sort.Ints(ks)
+	return ks
 }
 
 // Case = artifact + one fault. The certificate fixtures are created per process (random keys,
@@ -534,7 +581,8 @@ func enumerate(t *testing.T, a Art, tl *tally) bool {
 	for _, rf := range []bool{false, true} {
 		for mode := range modeNames {
 			var rfInvoked int64
-			for k := 0; k <= len(O); k++ {
+			ks := faultPositions(len(O), a.Sampled)
+			for _, k := range ks {
 				v, s := evalFault(run, O, k, mode, rf, false)
 				if v != nil {
 					return report(Case{Art: a, K: k, OutLen: len(O), Mode: modeNames[mode], SinkReaderFrom: rf}, v)
@@ -543,9 +591,9 @@ func enumerate(t *testing.T, a Art, tl *tally) bool {
 					rfInvoked++
 				}
 			}
-			n := int64(len(O) + 1)
+			n := int64(len(ks))
 			evals += n
-			nt += int64(len(O))
+			nt += n - 1
 			classes["mode-"+modeNames[mode]] += n
 			if rf {
 				classes["sink-readerfrom"] += n
@@ -560,6 +608,12 @@ func enumerate(t *testing.T, a Art, tl *tally) bool {
 	classes[variant] = evals
 	if big {
 		classes["artifact>32KiB"] = evals
+	}
+	if a.Sampled {
+		classes["artifact>64KiB-sampled-positions"] = evals
+		if len(O) > 1<<20 {
+			classes["artifact>1MiB-sampled-positions"] = evals
+		}
 	}
 	classes["artifacts"] = 1
 	// the artifact object was shared by all runs: it must still produce O
@@ -967,6 +1021,25 @@ func TestFaultBig(t *testing.T) {
 	arts := []Art{
 		bigBundle("b2", 33000),
 		{Serializer: "sxg-write", Sxg: &SxgSpec{Spec: sxgSpec("1b3", 33000, 4096)}},
+	}
+	// above 64 KiB and 1 MiB (chunked copy loops): positions sampled, the large value LAST in the output
+	huge := func(a Art) Art { a.Sampled = true; return a }
+	arts = append(arts,
+		huge(Art{Serializer: "cbor", CBOR: []Call{{Op: "uint", U: 7}, {Op: "bytes", Len: 65536 + 300, Tag: 51}}}),
+		huge(Art{Serializer: "certchain", Chain: []ChainItem{{Cert: 0, OCSPLen: 80000, SCTLen: -1}}}),
+		huge(Art{Serializer: "sxg-write", Sxg: &SxgSpec{Spec: sxgSpec("1b3", 70000, 16384)}}),
+		huge(Art{Serializer: "mice", MI: &MISpec{Draft: "03", RecordSize: 16384, PayloadLen: 140000, PayloadTag: 43}}),
+		huge(bigBundle("b2", 140000)),
+	)
+	if vh.Thorough() {
+		arts = append(arts,
+			huge(Art{Serializer: "cbor", CBOR: []Call{{Op: "text", S: strings.Repeat("t", 1<<20+5)}}}),
+			huge(Art{Serializer: "cbor", CBOR: []Call{{Op: "map", Entries: []Entry{{Key: "a", Val: Call{Op: "uint", U: 1}}, {Key: "zz", Val: Call{Op: "bytes", Len: 1<<20 + 70000, Tag: 52}}}}}}),
+			huge(Art{Serializer: "certchain", Chain: []ChainItem{{Cert: 1, OCSPLen: 1<<20 + 1, SCTLen: 70000}, {Cert: -1, OCSPLen: -1, SCTLen: 66000}}}),
+			huge(Art{Serializer: "sxg-write", Sxg: &SxgSpec{Spec: sxgSpec("1b1", 1<<20+100, 16384)}}),
+			huge(Art{Serializer: "mice", MI: &MISpec{Draft: "02", RecordSize: 1 << 16, PayloadLen: 1<<20 + 3, PayloadTag: 44}}),
+			huge(bigBundle("b1", 1<<20+70000)),
+		)
 	}
 	if vh.Thorough() {
 		arts = append(arts,
